@@ -452,6 +452,61 @@ theorem reorder_loss_roundtrip_fresh (S : Suite) (cs cr : Ctx) (hpair : Paired c
       (by simpa [Nat.reducePow, hseq] using hc')
       (fun x hx => hg x (hsub x (by simp [hx]))) hwr
 
+/-- `SrtpSession` receive path on a list of datagrams arriving at the given times -/
+def sessReceiveAll (S : Suite) : Sess → List (Nat × Bytes) → List (Except (ParseErr ⊕ Err) Pkt)
+  | _, [] => []
+  | r, (now, raw) :: rest => (r.receiveRtp S now raw).1 :: sessReceiveAll S (r.receiveRtp S now raw).2 rest
+
+/-- **session_reorder_loss_roundtrip** — `reorder_loss_roundtrip` lifted to the receiving `SrtpSession` for
+one stream: the session holds a context for SSRC `k` at index `R` (any other contexts, any table size,
+eviction running at every accepted packet, arbitrary arrival times); it is handed any in-window list of
+genuine packets of that stream (loss, reordering, repetitions) as a paired sender put them on the wire.
+Every one is returned exactly. (The stream's own packets keep its context: `keep_ssrc`.) -/
+theorem session_reorder_loss_roundtrip (S : Suite) (cs : Ctx) (k : Nat) (deliveries : List (Nat × Nat × Pkt))
+    (r : Sess) (c : Ctx) (R : Nat)
+    (hl : lookup r.rx k = some c) (hc : AtIndex c R)
+    (hs : c.ssrc = cs.ssrc) (hp : c.profile = cs.profile) (hk : c.rtp = cs.rtp)
+    (hg : ∀ d ∈ deliveries, Genuine d.2 ∧ d.2.2.hdr.ssrc = k)
+    (hw : InWindow R (deliveries.map (·.2.1))) :
+    sessReceiveAll S r (deliveries.map (fun d => (d.1, wireOf S cs d.2))) = deliveries.map (fun d => .ok d.2.2) := by
+  induction deliveries generalizing r c R with
+  | nil => rfl
+  | cons d rest ih =>
+    obtain ⟨now, I, p⟩ := d
+    obtain ⟨⟨h1, h2, h3⟩, hrest⟩ := hw
+    obtain ⟨⟨wf, hseq⟩, hssrc⟩ := hg (now, I, p) (List.mem_cons_self ..)
+    simp only at wf hseq hssrc h1 h2 h3
+    obtain ⟨he, hc'⟩ := in_window_step c R I hc h1 h2 h3
+    have hun := unprotect_wireBody S cs c p wf hs hp hk
+    rw [hseq, he] at hun
+    have hparse := parseHdr_writeHdr p.hdr (decide (p.padLen ≠ 0)) (rtpWireBody S cs p (I / 2 ^ 16)) wf.hdr
+    have hl' : lookup r.rx p.hdr.ssrc = some c := by rw [hssrc]; exact hl
+    have hok : (r.unprotectRtp S now p.hdr (decide (p.padLen ≠ 0)) (rtpWireBody S cs p (I / 2 ^ 16))).1 = .ok p := by
+      unfold Sess.unprotectRtp
+      rw [withRx_some_ok S r now p.hdr.ssrc _ hl' (by rw [hun])]
+    obtain ⟨hrecv, hrecvs⟩ := receiveRtp_ok S r now _ p.hdr (decide (p.padLen ≠ 0)) _ p hparse hok
+    have hst : (r.receiveRtp S now (wireOf S cs (I, p))).2 =
+        { r with rx := evict (replace r.rx { (c.updated (I % 2 ^ 16) (I / 2 ^ 16)) with lastUsed := now }) p.hdr.ssrc now } := by
+      simp only [wireOf, Nat.reducePow] at hrecvs ⊢
+      rw [hrecvs]
+      unfold Sess.unprotectRtp
+      rw [withRx_some_ok S r now p.hdr.ssrc _ hl' (by rw [hun])]
+      simp only [hun]
+    have hlk : lookup (r.receiveRtp S now (wireOf S cs (I, p))).2.rx k =
+        some { (c.updated (I % 2 ^ 16) (I / 2 ^ 16)) with lastUsed := now } := by
+      rw [hst]
+      simp only
+      rw [hssrc, lookup_evict_keep]
+      exact lookup_replace_self hl (by show c.ssrc = k; exact lookup_ssrc hl)
+    simp only [List.map_cons, sessReceiveAll]
+    simp only [wireOf, Nat.reducePow] at hrecv
+    simp only [wireOf, Nat.reducePow, hrecv]
+    congr 1
+    have := ih (r.receiveRtp S now (wireOf S cs (I, p))).2 _ (max R I) hlk
+      (by obtain ⟨a, l, b, c2, d2⟩ := hc'; exact ⟨a, l, b, c2, d2⟩) hs hp hk
+      (fun x hx => hg x (List.mem_cons_of_mem _ hx)) hrest
+    simpa [wireOf] using this
+
 /-! ### Round trip through the session API, any number of SSRCs -/
 
 /-- a sender session and the receiver session of the same direction: same profile and usable keying
@@ -471,15 +526,19 @@ structure Linked (S : Suite) (s r : Sess) : Prop where
 eviction running on both sides at arbitrary times `now`, `now'`): if the two sessions hold the same
 rollover state for the packet's SSRC (both none counts), the receiver returns exactly the packet, both
 sessions stay `Linked`, and they again hold the same rollover state for that SSRC. `hroom`: the
-receiver holds fewer than `MAX_RX_CONTEXTS` contexts (at the cap a packet of a NEW SSRC is refused). -/
+receiver already has a context for this SSRC, or holds fewer than `MAX_RX_CONTEXTS` contexts (at the
+cap a packet of a NEW SSRC is refused — known finding `…:rx-cap`, `rx_cap_witness`). Afterwards the
+receiver has a context for the SSRC, so a stream needs room only for its first packet. -/
 theorem session_roundtrip_rtp (S : Suite) (s r : Sess) (now now' : Nat) (p : Pkt) (wf : p.WF)
-    (hl : Linked S s r) (hroom : r.rx.length < maxRxContexts)
+    (hl : Linked S s r)
+    (hroom : (lookup r.rx p.hdr.ssrc).isSome = true ∨ r.rx.length < maxRxContexts)
     (hsync0 : rocOf s.tx p.hdr.ssrc = rocOf r.rx p.hdr.ssrc) :
     ∃ wire, (s.protectRtp S now p).1 = .ok wire ∧
       (∃ body, parseHdr wire = .ok (p.hdr, decide (p.padLen ≠ 0), body)) ∧
       (r.receiveRtp S now' wire).1 = .ok p ∧
       Linked S (s.protectRtp S now p).2 (r.receiveRtp S now' wire).2 ∧
-      rocOf (s.protectRtp S now p).2.tx p.hdr.ssrc = rocOf (r.receiveRtp S now' wire).2.rx p.hdr.ssrc := by
+      rocOf (s.protectRtp S now p).2.tx p.hdr.ssrc = rocOf (r.receiveRtp S now' wire).2.rx p.hdr.ssrc ∧
+      (lookup (r.receiveRtp S now' wire).2.rx p.hdr.ssrc).isSome = true := by
   have hsync : rocOf (evict s.tx p.hdr.ssrc now) p.hdr.ssrc = rocOf r.rx p.hdr.ssrc := by
     rw [← hsync0]; simp only [rocOf, lookup_evict_keep]
   -- the context the sender works on
@@ -503,10 +562,10 @@ theorem session_roundtrip_rtp (S : Suite) (s r : Sess) (now now' : Nat) (p : Pkt
     (by rw [hcrK.profile, hcsK.profile, hl.profile])
     (by rw [hcrK.rtp, hcsK.rtp, hl.profile, hl.mkey, hl.msalt])
   rw [hest] at hun
-  obtain ⟨hok, hroc2⟩ := hacc p (by show (cr.unprotectRtp S _ _ _).1 = _; rw [hun])
+  obtain ⟨hok, hroc2, hsome⟩ := hacc p (by show (cr.unprotectRtp S _ _ _).1 = _; rw [hun])
   have hu : (r.unprotectRtp S now' p.hdr (p.padLen ≠ 0) (rtpWireBody S cs p (cs.estimate p.hdr.seq))).1 = .ok p := hok
   obtain ⟨hrecv, hrecvs⟩ := receiveRtp_ok S r now' _ p.hdr (p.padLen ≠ 0) _ p (parseHdr_writeHdr _ _ _ wf.hdr) hu
-  refine ⟨_, hres, ⟨_, parseHdr_writeHdr _ _ _ wf.hdr⟩, hrecv, ?_, ?_⟩
+  refine ⟨_, hres, ⟨_, parseHdr_writeHdr _ _ _ wf.hdr⟩, hrecv, ?_, ?_, by rw [hrecvs]; exact hsome⟩
   · -- both sessions keep their keys and table invariants
     have t := protectRtp_kept S s now p hl.txInv
     have q := unprotectRtp_kept S r now' p.hdr (p.padLen ≠ 0) (rtpWireBody S cs p (cs.estimate p.hdr.seq)) hl.rxInv
@@ -532,10 +591,11 @@ def streamThrough (S : Suite) : Sess → Sess → Nat → List Pkt → List (Exc
     | .ok wire => (r.receiveRtp S now wire).1 :: streamThrough S (s.protectRtp S now p).2 (r.receiveRtp S now wire).2 now ps
     | .error e => [.error (.inr e)]
 
-/-- every packet of an in-order stream of any length on one SSRC comes out exactly as it went in —
+/-- every packet of an in-order stream of ANY length on one SSRC comes out exactly as it went in (the
+receiver needs room for a new context only if the stream is new to it) —
 whatever the sequence numbers do (the two ends run the same estimate from the same state) -/
 theorem session_stream_roundtrip (S : Suite) (k now : Nat) (ps : List Pkt) (s r : Sess) (hl : Linked S s r)
-    (hroom : r.rx.length + ps.length ≤ maxRxContexts)
+    (hroom : (lookup r.rx k).isSome = true ∨ r.rx.length < maxRxContexts)
     (hps : ∀ p ∈ ps, p.WF ∧ p.hdr.ssrc = k) (hsync : rocOf s.tx k = rocOf r.rx k) :
     streamThrough S s r now ps = ps.map .ok := by
   induction ps generalizing s r with
@@ -543,11 +603,9 @@ theorem session_stream_roundtrip (S : Suite) (k now : Nat) (ps : List Pkt) (s r 
   | cons p ps ih =>
     obtain ⟨wf, hk⟩ := hps p (by simp)
     subst hk
-    simp only [List.length_cons] at hroom
-    obtain ⟨wire, h1, _, h2, h3, h4⟩ := session_roundtrip_rtp S s r now now p wf hl (by omega) hsync
-    have hlen := receiveRtp_length S r now wire
+    obtain ⟨wire, h1, _, h2, h3, h4, h5⟩ := session_roundtrip_rtp S s r now now p wf hl hroom hsync
     simp only [streamThrough, h1, h2, List.map_cons]
-    rw [ih _ _ h3 (by omega) (fun q hq => hps q (by simp [hq])) h4]
+    rw [ih _ _ h3 (Or.inl h5) (fun q hq => hps q (by simp [hq])) h4]
 
 example (S : Suite) (mk ms : Bytes) (h1 : srtpKeyLen ≤ mk.length) (h2 : Profile.gcm.saltLen ≤ ms.length) :
     Linked S (Sess.new .gcm mk ms mk ms) (Sess.new .gcm mk ms mk ms) :=
@@ -574,7 +632,6 @@ agree on every SSRC's rollover state return every delivered packet of every in-o
 (any SSRCs, any times, any losses). -/
 def ManySsrcRoundtrip (S : Suite) : Prop :=
   ∀ (s r : Sess) (sched : List (Nat × Bool × Pkt)), Linked S s r → (∀ k, rocOf s.tx k = rocOf r.rx k) →
-    r.rx.length + sched.length ≤ maxRxContexts →
     (∀ x ∈ sched, x.2.2.WF) → allDelivered S s r sched = true
 
 namespace Witness
@@ -628,7 +685,7 @@ theorem many_ssrc_roundtrip_witness : ¬ (∀ S, ManySsrcRoundtrip S) ∧
     allDelivered toySuite s0 s0 noIdle = true := by
   have h1 : allDelivered toySuite s0 s0 txEvicted = false := by decide
   refine ⟨fun h => ?_, h1, by decide, by decide⟩
-  have := h toySuite s0 s0 txEvicted linked0 (fun _ => rfl) (by decide) (fun x hx => by
+  have := h toySuite s0 s0 txEvicted linked0 (fun _ => rfl) (fun x hx => by
     simp only [txEvicted, List.mem_append, List.mem_cons, List.not_mem_nil, or_false] at hx
     rcases hx with hx | rfl | rfl
     · exact wf_of_mem warmup_shape hx
@@ -638,15 +695,82 @@ theorem many_ssrc_roundtrip_witness : ¬ (∀ S, ManySsrcRoundtrip S) ∧
   exact absurd this (by decide)
 
 
-/-- **many_ssrc_roundtrip_partial** — the part of `ManySsrcRoundtrip` that does hold: any number of
-SSRCs, interleaved arbitrarily, any sequence numbers, as long as NO context idles for the eviction
-time: all activity (the tables' last-use stamps and the schedule) lies in a window shorter than
-`SSRC_INACTIVITY_EVICT` starting at `T`, nothing is lost, and the receiver stays below the
-`MAX_RX_CONTEXTS` cap (`hroom`). (The excluded point is exactly the
-witness above; loss is covered per context by `reorder_loss_roundtrip`.) -/
+namespace Witness
+/-- 1024 live receive (and transmit) contexts, derived from the session keys, all used at time 0 -/
+def fullTable : List Ctx :=
+  (List.range 1024).map (fun k => ⟨1000 + k, .cm80, (deriveKeys toySuite .cm80 key16 salt14).1,
+    (deriveKeys toySuite .cm80 key16 salt14).2, 0, none, 0, 0⟩)
+def sFull : Sess := { s0 with tx := fullTable, rx := fullTable }
+private theorem fullTable_inv : TableInv toySuite .cm80 key16 salt14 fullTable := by
+  intro c hc
+  obtain ⟨k, _, rfl⟩ := List.mem_map.mp hc
+  exact ⟨rfl, rfl, rfl⟩
+end Witness
+
+open Witness in
+set_option maxRecDepth 1000000 in
+/-- **rx_cap_witness** (KNOWN FINDING `roundtrip:rtp-genuine-rejected:<profile>:rx-cap`, `…rtcp…:rx-cap`):
+the second reason why "any number of SSRCs" is false on the current code. Since the `fix:` commit
+that bounds the receive table for C07 (`MAX_RX_CONTEXTS`), a receiver holding 1024 live contexts
+refuses the first packet of the 1025th stream although both sessions are `Linked`, agree on every
+rollover state and the packet is well-formed. Deliberate (memory bound against a keyed peer that
+uses a fresh SSRC per packet); recorded, not hidden in the statement. -/
+theorem rx_cap_witness :
+    Linked toySuite sFull sFull ∧ (∀ k, rocOf sFull.tx k = rocOf sFull.rx k) ∧ (pkt 5000 1).WF ∧
+    allDelivered toySuite sFull sFull [(0, true, pkt 5000 1)] = false ∧ ¬ ManySsrcRoundtrip toySuite := by
+  have hl : Linked toySuite sFull sFull :=
+    ⟨rfl, rfl, rfl, by decide, by decide, fullTable_inv, fullTable_inv⟩
+  have hw : (pkt 5000 1).WF := pkt_WF _ _ (by decide) (by decide)
+  have hf : allDelivered toySuite sFull sFull [(0, true, pkt 5000 1)] = false := by decide
+  refine ⟨hl, fun _ => rfl, hw, hf, fun h => ?_⟩
+  have := h sFull sFull [(0, true, pkt 5000 1)] hl (fun _ => rfl) (fun x hx => by
+    simp only [List.mem_singleton] at hx; subst hx; exact hw)
+  rw [hf] at this
+  exact absurd this (by decide)
+
+/-- along the schedule the receiver never has to refuse a NEW stream for lack of room: whenever a
+delivered packet's SSRC has no receive context yet, fewer than `MAX_RX_CONTEXTS` contexts exist.
+(Exactly the complement of the `rx-cap` finding. `room_of_count` gives a simple sufficient bound.) -/
+def RoomAlong (S : Suite) : Sess → Sess → List (Nat × Bool × Pkt) → Prop
+  | _, _, [] => True
+  | s, r, (now, deliver, p) :: rest =>
+    match (s.protectRtp S now p).1 with
+    | .error _ => True
+    | .ok wire =>
+      if deliver then
+        ((lookup r.rx p.hdr.ssrc).isSome = true ∨ r.rx.length < maxRxContexts) ∧
+          RoomAlong S (s.protectRtp S now p).2 (r.receiveRtp S now wire).2 rest
+      else RoomAlong S (s.protectRtp S now p).2 r rest
+
+/-- sufficient for `RoomAlong`: the table plus one context per scheduled packet stays within the cap -/
+theorem room_of_count (S : Suite) (sched : List (Nat × Bool × Pkt)) (s r : Sess)
+    (h : r.rx.length + sched.length ≤ maxRxContexts) : RoomAlong S s r sched := by
+  induction sched generalizing s r with
+  | nil => trivial
+  | cons x rest ih =>
+    obtain ⟨now, deliver, p⟩ := x
+    simp only [List.length_cons] at h
+    simp only [RoomAlong]
+    split
+    · trivial
+    · rename_i wire _
+      split
+      · have := receiveRtp_length S r now wire
+        exact ⟨Or.inr (by omega), ih _ _ (by omega)⟩
+      · exact ih _ _ (by omega)
+
+/-- **many_ssrc_roundtrip_partial** — a part of `ManySsrcRoundtrip` that does hold: any number of
+SSRCs, interleaved arbitrarily, any sequence numbers, PROVIDED (1) no context idles for the eviction
+time — all activity (last-use stamps and schedule) lies in one window shorter than
+`SSRC_INACTIVITY_EVICT` starting at `T`; (2) the receiver never runs out of room for a new stream
+(`RoomAlong`); (3) every packet is delivered at once and in order (`hdel`). Restriction (3) excludes
+much more than the two witnesses: session-level loss and reordering across several SSRCs is true on
+the code but NOT proved here (the invariant "both tables hold equal rollover state" does not survive
+a lost packet); per stream it is `reorder_loss_roundtrip` (context level) and
+`session_reorder_loss_roundtrip` (session level, one stream). -/
 theorem many_ssrc_roundtrip_partial (S : Suite) (T : Nat) (sched : List (Nat × Bool × Pkt)) (s r : Sess)
     (hl : Linked S s r) (hsync : ∀ k, rocOf s.tx k = rocOf r.rx k)
-    (hroom : r.rx.length + sched.length ≤ maxRxContexts)
+    (hroom : RoomAlong S s r sched)
     (hwf : ∀ x ∈ sched, x.2.2.WF) (hdel : ∀ x ∈ sched, x.2.1 = true)
     (ht : ∀ x ∈ sched, T ≤ x.1 ∧ x.1 < T + ssrcInactivityEvictSecs)
     (hus : UsedSince T s.tx) (hur : UsedSince T r.rx) :
@@ -660,9 +784,18 @@ theorem many_ssrc_roundtrip_partial (S : Suite) (T : Nat) (sched : List (Nat × 
     obtain ⟨hT, hn⟩ := ht _ (List.mem_cons_self ..)
     simp only at hT hn
     have wf : p.WF := hwf _ (List.mem_cons_self ..)
-    simp only [List.length_cons] at hroom
-    obtain ⟨wire, h1, ⟨body, hparse⟩, h2, h3, h4⟩ := session_roundtrip_rtp S s r now now p wf hl (by omega) (hsync p.hdr.ssrc)
-    have hlen := receiveRtp_length S r now wire
+    -- room for this packet, read off `RoomAlong` once the protect result is known
+    have hprot : ∃ w, (s.protectRtp S now p).1 = .ok w := by
+      obtain ⟨cs, _, _, _, hres, _⟩ := withTx_result S s now p.hdr.ssrc (fun c => c.protectRtp S p)
+        hl.txInv hl.keyLen hl.saltLen (fun c => protectRtp_ssrc S c p)
+      have := protectRtp_eq S cs p (validHdr_of_WF _ wf.hdr)
+      exact ⟨_, by show (s.withTx S now p.hdr.ssrc _).1 = _; rw [hres, this]⟩
+    obtain ⟨w0, hw0⟩ := hprot
+    simp only [RoomAlong, hw0, if_true] at hroom
+    obtain ⟨hroom1, hroomrest⟩ := hroom
+    obtain ⟨wire, h1, ⟨body, hparse⟩, h2, h3, h4, _⟩ := session_roundtrip_rtp S s r now now p wf hl hroom1 (hsync p.hdr.ssrc)
+    have hwe : wire = w0 := by rw [hw0] at h1; simpa using h1.symm
+    subst hwe
     have ftx := withTx_frame S s T now p.hdr.ssrc (fun c => c.protectRtp S p) hus hT hn
       (fun c => protectRtp_ssrc S c p) (fun c => protectRtp_lastUsed S c p)
     have frx := withRx_frame S r T now p.hdr.ssrc (fun c => c.unprotectRtp S p.hdr (p.padLen ≠ 0) body) hur hT hn
@@ -674,7 +807,7 @@ theorem many_ssrc_roundtrip_partial (S : Suite) (T : Nat) (sched : List (Nat × 
     have f2 : ∀ k, k ≠ p.hdr.ssrc → rocOf (r.receiveRtp S now wire).2.rx k = rocOf r.rx k := by
       rw [hrs]; exact frx.2
     simp only [allDelivered, h1, h2, if_true, beq_self_eq_true, Bool.true_and]
-    refine ih _ _ h3 (fun k => ?_) (by omega) (fun y hy => hwf y (List.mem_cons_of_mem _ hy))
+    refine ih _ _ h3 (fun k => ?_) hroomrest (fun y hy => hwf y (List.mem_cons_of_mem _ hy))
       (fun y hy => hdel y (List.mem_cons_of_mem _ hy)) (fun y hy => ht y (List.mem_cons_of_mem _ hy)) u1 u2
     by_cases hk : k = p.hdr.ssrc
     · rw [hk]; exact h4
@@ -691,7 +824,8 @@ example : allDelivered toySuite s0 s0 warmup = true := by
     intro y hy
     simp only [warmup, List.mem_append, List.mem_map, List.mem_range, List.mem_cons, List.not_mem_nil, or_false] at hy
     rcases hy with ⟨k, _, rfl⟩ | rfl | rfl | rfl | rfl <;> exact ⟨rfl, rfl⟩
-  exact many_ssrc_roundtrip_partial toySuite 0 warmup s0 s0 linked0 (fun _ => rfl) (by decide)
+  exact many_ssrc_roundtrip_partial toySuite 0 warmup s0 s0 linked0 (fun _ => rfl)
+    (room_of_count toySuite warmup s0 s0 (by decide))
     (fun x hx => wf_of_mem warmup_shape hx) (fun x hx => (hsh x hx).2)
     (fun x hx => by rw [(hsh x hx).1]; exact ⟨Nat.le_refl _, by decide⟩)
     (fun _ h => by simp [s0, Sess.new] at h) (fun _ h => by simp [s0, Sess.new] at h)
